@@ -268,6 +268,165 @@ def correspondences(tier, rng):
     def impl_itt(ident):
         return res(lambda: [ord(c) for c in identifierToTag("".join(chr(c) for c in ident))])
     out.append(Corr("identifierToTag", icases, impl_itt))
+
+    # --- sstruct: every format string of the library (regenerated descriptors) through pack / unpack / calcsize
+    out.extend(sstruct_correspondences(tier, rng))
+    return out
+
+def sstruct_formats():
+    """(file, line, name, format string, descriptor, field names) of every sstruct format of /repo/Lib, as the translator sees them"""
+    import sys, os
+    tools = os.path.join(os.path.dirname(os.path.dirname(os.path.dirname(os.path.abspath(__file__)))), "tools")
+    if tools not in sys.path: sys.path.insert(0, tools)
+    import translate_data as T
+    return T.collect_sstruct_formats()
+
+def sstruct_correspondences(tier, rng):
+    from fractions import Fraction
+    from fontTools.misc import sstruct
+    found, skipped = sstruct_formats()
+    # the translator's reading of each format string against sstruct.getformat's (ties the parser of getformat)
+    CH = {(2, 1): "b", (3, 1): "B", (2, 2): "h", (3, 2): "H", (2, 8): "q", (3, 8): "Q"}
+    def struct_chars(desc, order):
+        o = order
+        for k, p1, p2 in desc:
+            if k == 0: o += "x"
+            elif k == 1: o += "c"
+            elif k == 4: o += "?"
+            elif k == 5: o += "%ds" % p1
+            elif k == 6: o += {1: "b", 2: "h", 4: "l"}[p1]
+            else: o += CH.get((k, p1), "?")
+        return o
+    def impl_getformat(i):
+        rel, line, name, fmt, desc, names = found[i]
+        fs, nm, fixes = sstruct.getformat(fmt)
+        norm = fs.replace("i", "l").replace("I", "L")            # i/I/l/L are all four bytes
+        o = ">" if fs[:1] == ">" else ""
+        for k, p1, p2 in desc:
+            if (k, p1) == (2, 4): o += "l"
+            elif (k, p1) == (3, 4): o += "L"
+            else: o += struct_chars([(k, p1, p2)], "")
+        named = [d for d in desc if d[0] != 0]
+        ok = (o == norm and list(nm) == names and dict(fixes) == {n: d[2] for n, d in zip(names, named) if d[0] == 6})
+        return sstruct.calcsize(fmt) if ok else -1
+    out = []
+    out.append(Corr("sstruct_getformat", list(range(len(found))), impl_getformat, fn="sstruct_calcsize",
+                    enc=lambda i: [(k, (p1, p2)) for k, p1, p2 in found[i][4]]))
+    def rint(signed, nbytes):
+        bits = 8 * nbytes
+        lo, hi = (-(1 << (bits - 1)), (1 << (bits - 1)) - 1) if signed else (0, (1 << bits) - 1)
+        k = rng.below(10)
+        if k == 0: return lo
+        if k == 1: return hi
+        if k == 2: return lo - 1
+        if k == 3: return hi + 1
+        if k == 4: return 0
+        if k == 5: return rng.choice([1, -1, 127, 128, 255, 256, 32767, 32768, 65535, 65536])
+        return rng.randint(lo, hi)
+    def rfix(nbytes, after):
+        bits = 8 * nbytes
+        lo, hi = -(1 << (bits - 1)), (1 << (bits - 1)) - 1
+        k = rng.below(10)
+        if k == 0: z = Fraction(lo)
+        elif k == 1: z = Fraction(hi)
+        elif k == 2: z = Fraction(2 * hi + 1, 2)                       # rounds up out of range
+        elif k == 3: z = Fraction(2 * lo - 1, 2)                       # rounds (half up) to lo: stays in range
+        elif k == 4: z = Fraction(2 * rng.randint(-40, 40) + 1, 2)     # ties
+        elif k == 5: z = Fraction(rng.randint(8 * lo, 8 * hi), 8)      # off the grid
+        elif k == 6: z = Fraction(2 * lo - 2, 2) - Fraction(rng.randint(0, 3), 4)
+        else: z = Fraction(rng.randint(lo, hi))
+        return z / (1 << after)
+    def rvals(desc):
+        vals = []
+        for k, p1, p2 in desc:
+            if k == 0: continue
+            if k in (2, 3): vals.append((Fraction(rint(k == 2, p1)), []))
+            elif k == 6:
+                q = rfix(p1, p2)
+                vals.append((q, []))
+            elif k == 4: vals.append((Fraction(rng.choice([0, 1, 1, 2, -1])), []))
+            elif k == 1: vals.append((Fraction(0), [rng.randint(0, 255)]))
+            elif k == 5:
+                n = p1 if rng.chance(70) else rng.randint(0, p1 + 2)
+                vals.append((Fraction(0), [rng.choice([0, 32, 65, 97, 127, 128, 255]) if rng.chance(50) else rng.randint(0, 255) for _ in range(n)]))
+        return vals
+    def pyvals(i, vals):
+        rel, line, name, fmt, desc, names = found[i]
+        d = {}
+        for n, (k, p1, p2), (q, bs) in zip(names, [x for x in desc if x[0] != 0], vals):
+            if k in (2, 3): d[n] = int(q) if q.denominator == 1 else float(q)
+            elif k == 4: d[n] = int(q)
+            elif k == 6: d[n] = int(q) if (q.denominator == 1 and rng_int_for_fixed[0]) else float(q)
+            else: d[n] = bytes(bs)
+        return fmt, d
+    rng_int_for_fixed = [False]
+    def back(i, obj):
+        rel, line, name, fmt, desc, names = found[i]
+        outv = []
+        for n, (k, p1, p2) in zip(names, [x for x in desc if x[0] != 0]):
+            v = obj[n]
+            if k in (1, 5): outv.append((Fraction(0), list(v.encode("ascii") if isinstance(v, str) else v)))
+            else: outv.append((Fraction(v), []))
+        return outv
+    def impl_pack(c):
+        i, vals = c
+        fmt, d = pyvals(i, vals)
+        r = res(lambda: list(sstruct.pack(fmt, d)))
+        # "Check it fits" packs each value alone in NATIVE mode, where l / L are eight bytes wide on this platform: a value
+        # between 2^31 and 2^63 passes it and is refused by the final struct.pack instead (struct.error rather than ValueError);
+        # both are the refusal the model calls ValueError
+        if isinstance(r, Err) and r.code == 2: r = Err(6)
+        return r
+    def exact_val(k, p1, p2, q, bs):
+        if k in (2, 3): return True
+        if k == 4: return q in (0, 1)
+        if k == 6: return (q * (1 << p2)).denominator == 1
+        if k == 5: return len(bs) == p1
+        return True
+    def oracle_pack(c):
+        """the property on the implementation: what is packed unpacks to the same values (exact values), to the nearest grid value otherwise"""
+        i, vals = c
+        fmt, d = pyvals(i, vals)
+        try: data = sstruct.pack(fmt, d)
+        except Exception: return None
+        if len(data) != sstruct.calcsize(fmt): return "pack wrote %d bytes, calcsize is %d" % (len(data), sstruct.calcsize(fmt))
+        got = back(i, sstruct.unpack(fmt, data))
+        desc = [x for x in found[i][4] if x[0] != 0]
+        for (k, p1, p2), (q, bs), (q2, bs2), n in zip(desc, vals, got, found[i][5]):
+            if exact_val(k, p1, p2, q, bs):
+                if (q, bs) != (q2, bs2): return "%s.%s: %r written, %r read back" % (found[i][2], n, (q, bs), (q2, bs2))
+            elif k == 6 and abs(q2 - q) > Fraction(1, 2 << p2):
+                return "%s.%s: %r read back as %r, more than half a unit away" % (found[i][2], n, q, q2)
+        return None
+    per = N(tier, 5, 40)
+    pcases = [(i, rvals(found[i][4])) for i in range(len(found)) for _ in range(per)]
+    enc_pack = lambda c: ([(k, (p1, p2)) for k, p1, p2 in found[c[0]][4]], c[1])
+    out.append(Corr("sstruct_pack", pcases, impl_pack, enc=enc_pack, oracle=oracle_pack))
+    ucases = []
+    for i in range(len(found)):
+        size = sstruct.calcsize(found[i][3])
+        for j in range(per):
+            n = size if j or size == 0 else size + rng.choice([-1, 1])
+            ucases.append((i, [rng.choice([0, 1, 127, 128, 255, 65]) if rng.chance(40) else rng.randint(0, 255) for _ in range(max(0, n))]))
+    def impl_unpack(c):
+        i, data = c
+        return res(lambda: back(i, sstruct.unpack(found[i][3], bytes(data))))
+    def oracle_unpack(c):
+        """decode then encode: the same bytes, apart from pad bytes and the non-canonical truth values of '?' fields"""
+        i, data = c
+        fmt = found[i][3]
+        try: obj = sstruct.unpack(fmt, bytes(data))
+        except Exception: return None
+        try: again = sstruct.pack(fmt, obj)
+        except Exception as e: return "%s: unpacked values do not pack: %r" % (found[i][2], e)
+        pos = 0; want = bytearray(data)
+        for k, p1, p2 in found[i][4]:
+            sz = 1 if k in (0, 1, 4) else p1
+            if k == 0: want[pos] = 0
+            if k == 4: want[pos] = 1 if want[pos] else 0
+            pos += sz
+        return None if bytes(want) == again else "%s: %s unpacks and packs to %s" % (found[i][2], bytes(data).hex(), again.hex())
+    out.append(Corr("sstruct_unpack", ucases, impl_unpack, enc=lambda c: ([(k, (p1, p2)) for k, p1, p2 in found[c[0]][4]], c[1]), oracle=oracle_unpack))
     return out
 
 def sweeps(tier, rng):
